@@ -1,11 +1,12 @@
 /-
-C07 — totality of the lenient pipeline: property theorems proved so far.
+C07 — totality of the lenient pipeline: `sound` (every text), through `from_fields`, the merge of
+contiguous unknown paragraphs, the fold into an empty license, and the rendering.
 -/
 import DebInspector.Props.C07
 import DebInspector.Proofs.CopyrightTotal
 
 namespace Props.C07
-open Py Model.Deb822 Model.Copyright Proofs.CopyrightTotal
+open Py Model.Deb822 Model.Debcon Model.Copyright Proofs.CopyrightTotal
 
 /-- the duplicate-renaming loop of `from_fields` finds an unused name within `|seen| + 1` iterations,
 for every set of names seen so far and every field name (the termination argument behind F4) -/
@@ -26,5 +27,527 @@ theorem fromFields_ok (k : Kind) (fields : List Fld) : ∃ p, fromFields k field
 example : Props.isOk (model "License-1: a\nLicense: b\nLicense: c\n".toList).copyright = true := by decide +kernel
 example : Props.isOk (model "Files: *\nExtra-Data: x\n".toList).copyright = true := by decide +kernel
 example : holdsOn [] (model "License:\n\njunk\n\nmore\n\nLicense: x\n".toList) = true := by decide +kernel
+
+
+/-! ### what `from_fields` guarantees about the paragraph it builds -/
+
+def ExtraInv (extra : List (Str × XV)) (lines : List (Str × (Nat × Nat))) : Prop :=
+  ∀ kv ∈ extra, (∃ v, kv.2 = .s v) ∧ kv.1 ∈ lines.map (·.1)
+
+theorem lset_keys_mem {α} (l : List (Str × α)) (k : Str) (v : α) : k ∈ (lset l k v).map (·.1) := by
+  induction l with
+  | nil => simp [lset]
+  | cons kv rest ih =>
+    obtain ⟨k', v'⟩ := kv
+    unfold lset
+    split
+    · rename_i h; subst h; simp
+    · simp [ih]
+
+theorem lset_keys_mono {α} (l : List (Str × α)) (k : Str) (v : α) (x : Str) (h : x ∈ l.map (·.1)) :
+    x ∈ (lset l k v).map (·.1) := by
+  induction l with
+  | nil => simp at h
+  | cons kv rest ih =>
+    obtain ⟨k', v'⟩ := kv
+    unfold lset
+    split
+    · simpa using h
+    · simp only [List.map_cons, List.mem_cons] at h ⊢
+      rcases h with h | h
+      · exact Or.inl h
+      · exact Or.inr (ih h)
+
+theorem addField_extraInv (knownNames : List Str) (a a' : Acc) (f : Fld)
+    (h : addField knownNames a f = .ok a') (hinv : ExtraInv a.extra a.lines) : ExtraInv a'.extra a'.lines := by
+  unfold addField at h
+  simp only at h
+  split at h
+  · cases h; exact hinv
+  · split at h
+    · cases h
+    · split at h
+      · cases h
+      · split at h
+        · rename_i name suffix _ first last _ _
+          split at h
+          · cases h
+            intro kv hkv
+            obtain ⟨h1, h2⟩ := hinv kv hkv
+            exact ⟨h1, lset_keys_mono _ _ _ _ h2⟩
+          · cases h
+            intro kv hkv
+            simp only [List.mem_append, List.mem_singleton] at hkv
+            rcases hkv with hkv | rfl
+            · obtain ⟨h1, h2⟩ := hinv kv hkv
+              exact ⟨h1, lset_keys_mono _ _ _ _ h2⟩
+            · exact ⟨⟨_, rfl⟩, lset_keys_mem _ _ _⟩
+        · cases h
+
+theorem addFields_extraInv (knownNames : List Str) (fs : List Fld) (a a' : Acc)
+    (h : addFields knownNames a fs = .ok a') (hinv : ExtraInv a.extra a.lines) : ExtraInv a'.extra a'.lines := by
+  induction fs generalizing a with
+  | nil => simp only [addFields] at h; cases h; exact hinv
+  | cons f fs ih =>
+    simp only [addFields] at h
+    split at h
+    · cases h
+    · rename_i a1 h1
+      exact ih a1 h (addField_extraInv knownNames a a1 f h1 hinv)
+
+theorem typedFields_catchall : typedFields .catchall = [] := by decide
+
+/-- a paragraph as `from_fields` builds it -/
+def Good (p : Para) : Prop :=
+  ExtraInv p.extra p.lines ∧ (p.kind = .catchall → p.fields = [])
+
+theorem fromFields_good (k : Kind) (fields : List Fld) : ∃ p, fromFields k fields = .ok p ∧ Good p := by
+  obtain ⟨p, hp⟩ := fromFields_ok k fields
+  refine ⟨p, hp, ?_⟩
+  unfold fromFields at hp
+  simp only at hp
+  split at hp
+  · cases hp
+  · rename_i a ha
+    cases hp
+    refine ⟨addFields_extraInv _ fields _ a ha (by intro kv hkv; cases hkv), ?_⟩
+    intro hk
+    simp only at hk
+    subst hk
+    simp [typedFields_catchall]
+
+theorem mapExcept_good (groups : List (List Fld)) :
+    ∃ ps, mapExcept (fun g => fromFields (classify g) g) groups = .ok ps ∧ ∀ p ∈ ps, Good p := by
+  induction groups with
+  | nil => exact ⟨[], rfl, by intro p hp; cases hp⟩
+  | cons g gs ih =>
+    obtain ⟨p, hp, hg⟩ := fromFields_good (classify g) g
+    obtain ⟨ps, hps, hgs⟩ := ih
+    refine ⟨p :: ps, by simp [mapExcept, hp, hps], ?_⟩
+    intro q hq
+    rcases List.mem_cons.mp hq with rfl | hq
+    · exact hg
+    · exact hgs q hq
+
+
+/-! ### merging contiguous unknown paragraphs never raises -/
+
+/-- what the fold step needs of a paragraph -/
+def FoldInv (p : Para) : Prop :=
+  (p.kind = .catchall → p.fields = []) ∧ ∀ k v, (k, XV.s v) ∈ p.extra → k ∈ p.lines.map (·.1)
+
+theorem good_foldInv {p : Para} (h : Good p) : FoldInv p :=
+  ⟨h.2, fun k v hkv => (h.1 (k, .s v) hkv).2⟩
+
+def dstep (d : List (Str × DV)) (nv : Str × XV) : List (Str × DV) :=
+  lset d nv.1 (match nv.2 with
+    | .s v => .s (if v.isEmpty then v else asFormattedText v)
+    | .emptyList => .emptyList)
+
+theorem toDict_eq (p : Para) :
+    toDict p = p.extra.foldl dstep (p.fields.map fun nf => (nf.1, .s (dumps nf.2))) := by
+  unfold toDict dstep; rfl
+
+theorem lset_mem {α} (l : List (Str × α)) (k : Str) (v : α) : ∀ kv ∈ lset l k v, kv ∈ l ∨ kv.2 = v := by
+  induction l with
+  | nil => intro kv h; simp [lset] at h; right; rw [h]
+  | cons a rest ih =>
+    obtain ⟨k', v'⟩ := a
+    intro kv h
+    unfold lset at h
+    split at h
+    · simp only [List.mem_cons] at h
+      rcases h with rfl | h
+      · exact Or.inr rfl
+      · exact Or.inl (List.mem_cons_of_mem _ h)
+    · simp only [List.mem_cons] at h
+      rcases h with rfl | h
+      · exact Or.inl (by simp)
+      · rcases ih kv h with h | h
+        · exact Or.inl (List.mem_cons_of_mem _ h)
+        · exact Or.inr h
+
+theorem foldl_dstep_values (extra : List (Str × XV)) (d : List (Str × DV))
+    (he : ∀ kv ∈ extra, ∃ v, kv.2 = XV.s v) (hd : ∀ kv ∈ d, ∃ v, kv.2 = XV.s v) :
+    ∀ kv ∈ extra.foldl dstep d, ∃ v, kv.2 = XV.s v := by
+  induction extra generalizing d with
+  | nil => exact hd
+  | cons nv rest ih =>
+    apply ih (dstep d nv) (fun kv h => he kv (by simp [h]))
+    intro kv hkv
+    rcases lset_mem _ _ _ kv hkv with h | h
+    · exact hd kv h
+    · obtain ⟨v, hv⟩ := he nv (by simp)
+      rw [h, hv]; exact ⟨_, rfl⟩
+
+theorem toDict_values_s (p : Para) (he : ∀ kv ∈ p.extra, ∃ v, kv.2 = XV.s v) :
+    ∀ kv ∈ toDict p, ∃ v, kv.2 = XV.s v := by
+  rw [toDict_eq]
+  apply foldl_dstep_values _ _ he
+  intro kv hkv
+  simp only [List.mem_map] at hkv
+  obtain ⟨nf, _, rfl⟩ := hkv
+  exact ⟨_, rfl⟩
+
+theorem lookup_lset {α} (l : List (Str × α)) (k k' : Str) (v : α) :
+    (lset l k v).lookup k' = if k' = k then some v else l.lookup k' := by
+  induction l with
+  | nil =>
+    by_cases e : k' = k
+    · subst e; simp [lset]
+    · have : (k' == k) = false := by simpa using e
+      simp [lset, List.lookup, this, e]
+  | cons a rest ih =>
+    obtain ⟨a1, a2⟩ := a
+    unfold lset
+    by_cases hak : a1 = k
+    · subst hak
+      simp only [if_true, List.lookup]
+      by_cases e : k' = a1
+      · subst e; simp
+      · have : (k' == a1) = false := by simpa using e
+        simp [this, e]
+    · simp only [hak, if_false, List.lookup]
+      by_cases e : k' = a1
+      · subst e
+        have : ¬ k' = k := hak
+        simp [this]
+      · have : (k' == a1) = false := by simpa using e
+        simp only [this, ih]
+
+theorem foldl_dstep_lookup_s (extra : List (Str × XV)) (d : List (Str × DV)) (k : Str) (x : Str)
+    (h : (extra.foldl dstep d).lookup k = some (XV.s x)) :
+    (∃ v, (k, XV.s v) ∈ extra) ∨ d.lookup k = some (XV.s x) := by
+  induction extra generalizing d with
+  | nil => exact Or.inr h
+  | cons nv rest ih =>
+    rcases ih (dstep d nv) h with h' | h'
+    · obtain ⟨v, hv⟩ := h'
+      exact Or.inl ⟨v, List.mem_cons_of_mem _ hv⟩
+    · unfold dstep at h'
+      rw [lookup_lset] at h'
+      by_cases e : k = nv.1
+      · rw [if_pos e] at h'
+        obtain ⟨n1, n2⟩ := nv
+        simp only at e h'
+        subst e
+        cases n2 with
+        | s v => exact Or.inl ⟨v, by simp⟩
+        | emptyList => simp at h'
+      · rw [if_neg e] at h'
+        exact Or.inr h'
+
+theorem toDict_nil_of (p : Para) (hf : p.fields = []) (he : p.extra = []) : toDict p = [] := by
+  rw [toDict_eq, hf, he]; rfl
+
+theorem mergeRun_ok (contigs : List Para) (h : ∀ p ∈ contigs, Good p ∧ p.kind = .catchall) :
+    ∃ m, mergeRun contigs = .ok m ∧ FoldInv m := by
+  unfold mergeRun
+  simp only
+  have hall : ∀ v ∈ contigs.flatMap (fun p => (toDict p).map (·.2)), ∃ x, v = XV.s x := by
+    intro v hv
+    simp only [List.mem_flatMap, List.mem_map] at hv
+    obtain ⟨p, hp, kv, hkv, rfl⟩ := hv
+    exact toDict_values_s p (fun kv hkv => ((h p hp).1.1 kv hkv).1) kv hkv
+  have hany : (contigs.flatMap fun p => (toDict p).map (·.2)).any (fun v => v = XV.emptyList) = false := by
+    rw [List.any_eq_false]
+    intro v hv
+    obtain ⟨x, rfl⟩ := hall v hv
+    simp
+  rw [hany]
+  simp only [Bool.false_eq_true, if_false]
+  refine ⟨_, rfl, fun _ => rfl, ?_⟩
+  intro k v hkv
+  simp only [List.mem_singleton, Prod.mk.injEq] at hkv
+  obtain ⟨rfl, hv⟩ := hkv
+  -- the values are not empty, so some member has an entry, hence a line range
+  have hvne : (List.filterMap dvStr (contigs.flatMap fun p => (toDict p).map (·.2))) ≠ [] := by
+    intro e; rw [e] at hv; simp at hv
+  have hd : (contigs.flatMap fun p => (toDict p).map (·.2)) ≠ [] := by
+    intro e; rw [e] at hvne; exact hvne rfl
+  obtain ⟨v0, hv0⟩ := List.exists_mem_of_ne_nil _ hd
+  simp only [List.mem_flatMap, List.mem_map] at hv0
+  obtain ⟨p, hp, kv, hkv, _⟩ := hv0
+  obtain ⟨hg, hk⟩ := h p hp
+  have hex : p.extra ≠ [] := by
+    intro e
+    rw [toDict_nil_of p (hg.2 hk) e] at hkv
+    cases hkv
+  obtain ⟨e0, he0⟩ := List.exists_mem_of_ne_nil _ hex
+  have hl : e0.1 ∈ p.lines.map (·.1) := (hg.1 e0 he0).2
+  have hnums : (contigs.flatMap fun p => p.lines.map (·.2)) ≠ [] := by
+    intro e
+    have : ∀ x ∈ contigs, x.lines.map (·.2) = [] := by
+      intro x hx
+      have := List.flatMap_eq_nil_iff.mp e x hx
+      exact this
+    have := this p hp
+    simp only [List.map_eq_nil_iff] at this
+    rw [this] at hl
+    cases hl
+  cases hn : (contigs.flatMap fun p => p.lines.map (·.2)) with
+  | nil => exact absurd hn hnums
+  | cons n ns => simp
+
+
+theorem groupByKind_props (ps : List Para) :
+    ∀ g ∈ groupByKind ps, (∀ q ∈ g, q ∈ ps) ∧ (∀ q ∈ g, ∀ q' ∈ g, q.kind = q'.kind) := by
+  induction ps with
+  | nil => intro g hg; simp [groupByKind] at hg
+  | cons p ps ih =>
+    intro g hg
+    unfold groupByKind at hg
+    split at hg
+    · rename_i q g0 rest heq
+      have ih0 := ih (q :: g0) (by rw [heq]; simp)
+      split at hg
+      · rename_i hk
+        simp only [List.mem_cons] at hg
+        rcases hg with rfl | hg
+        · refine ⟨?_, ?_⟩
+          · intro x hx
+            simp only [List.mem_cons] at hx
+            rcases hx with rfl | hx
+            · simp
+            · exact List.mem_cons_of_mem _ (ih0.1 x (by simpa using hx))
+          · intro x hx y hy
+            have key : ∀ z ∈ p :: q :: g0, z.kind = p.kind := by
+              intro z hz
+              simp only [List.mem_cons] at hz
+              rcases hz with rfl | hz
+              · rfl
+              · rw [← hk]; exact ih0.2 z (by simpa using hz) q (by simp)
+            rw [key x hx, key y hy]
+        · have := ih g (by rw [heq]; exact List.mem_cons_of_mem _ hg)
+          exact ⟨fun x hx => List.mem_cons_of_mem _ (this.1 x hx), this.2⟩
+      · simp only [List.mem_cons] at hg
+        rcases hg with rfl | hg
+        · exact ⟨by intro x hx; simp at hx; simp [hx], by intro x hx y hy; simp at hx hy; rw [hx, hy]⟩
+        · have := ih g (by rw [heq]; simpa using hg)
+          exact ⟨fun x hx => List.mem_cons_of_mem _ (this.1 x hx), this.2⟩
+    · simp only [List.mem_singleton] at hg
+      subst hg
+      exact ⟨by intro x hx; simp at hx; simp [hx], by intro x hx y hy; simp at hx hy; rw [hx, hy]⟩
+
+def mstep (acc : Except PyExc (List Para)) (g : List Para) : Except PyExc (List Para) :=
+  match acc with
+  | .error e => .error e
+  | .ok out =>
+    match g with
+    | [] => .ok out
+    | p :: _ =>
+      if p.kind ≠ .catchall || g.length = 1 || !g.all isAllUnknown then .ok (out ++ g)
+      else
+        match mergeRun g with
+        | .error e => .error e
+        | .ok m => .ok (out ++ [m])
+
+theorem mergeUnknown_eq (ps : List Para) : mergeUnknown ps = (groupByKind ps).foldl mstep (.ok []) := rfl
+
+theorem foldl_mstep_ok (gs : List (List Para)) (out : List Para)
+    (hg : ∀ g ∈ gs, (∀ q ∈ g, Good q) ∧ (∀ q ∈ g, ∀ q' ∈ g, q.kind = q'.kind))
+    (ho : ∀ p ∈ out, FoldInv p) :
+    ∃ out', gs.foldl mstep (.ok out) = .ok out' ∧ ∀ p ∈ out', FoldInv p := by
+  induction gs generalizing out with
+  | nil => exact ⟨out, rfl, ho⟩
+  | cons g gs ih =>
+    have hgs : ∀ g' ∈ gs, (∀ q ∈ g', Good q) ∧ (∀ q ∈ g', ∀ q' ∈ g', q.kind = q'.kind) :=
+      fun g' h' => hg g' (List.mem_cons_of_mem _ h')
+    obtain ⟨hgood, hkind⟩ := hg g (by simp)
+    simp only [List.foldl_cons]
+    cases g with
+    | nil => exact ih out hgs ho
+    | cons p rest =>
+      simp only [mstep]
+      split
+      · apply ih _ hgs
+        intro x hx
+        simp only [List.mem_append] at hx
+        rcases hx with hx | hx
+        · exact ho x hx
+        · exact good_foldInv (hgood x hx)
+      · rename_i hc
+        have hpk : p.kind = .catchall := by
+          by_cases hk : p.kind = .catchall
+          · exact hk
+          · exfalso; apply hc; simp [hk]
+        obtain ⟨m, hm, hmi⟩ := mergeRun_ok (p :: rest)
+          (fun q hq => ⟨hgood q hq, by rw [hkind q hq p (by simp)]; exact hpk⟩)
+        rw [hm]
+        apply ih _ hgs
+        intro x hx
+        simp only [List.mem_append, List.mem_singleton] at hx
+        rcases hx with hx | rfl
+        · exact ho x hx
+        · exact hmi
+
+theorem mergeUnknown_ok (ps : List Para) (h : ∀ p ∈ ps, Good p) :
+    ∃ out, mergeUnknown ps = .ok out ∧ ∀ p ∈ out, FoldInv p := by
+  rw [mergeUnknown_eq]
+  apply foldl_mstep_ok
+  · intro g hg
+    obtain ⟨h1, h2⟩ := groupByKind_props ps g hg
+    exact ⟨fun q hq => h q (h1 q hq), h2⟩
+  · intro p hp; cases hp
+
+/-! ### folding free text into an empty license never raises -/
+
+def foldCond (p1 p2 : Para) : Bool :=
+  p1.kind = .license && licenseParaIsEmpty p1 && p2.kind = .catchall &&
+    (toDict p2).map (·.1) = [unknownName] && (match toDict p2 with | [(_, v)] => dvTruthy v | _ => false)
+
+theorem foldLoop_unfold (p1 p2 : Para) (rest : List Para) (b : Bool) :
+    foldLoop (p1 :: p2 :: rest) b =
+      if b then foldLoop (p2 :: rest) false
+      else if foldCond p1 p2 then
+        (match toDict p2, p2.lines.lookup unknownName with
+         | [(_, .s text)], some rng =>
+           let p1' := { setLicense p1 [] (some text) with lines := lset p1.lines "license".toList rng }
+           match foldLoop (p2 :: rest) true with
+           | .error e => .error e
+           | .ok (out, fp) => .ok (p1' :: out, fp)
+         | _, _ => .error .keyError)
+      else
+        (match foldLoop (p2 :: rest) false with
+         | .error e => .error e
+         | .ok (out, fp) => .ok (p1 :: out, fp)) := by
+  rw [foldLoop]
+  rfl
+
+theorem lookup_some_of_mem {α} (l : List (Str × α)) (k : Str) (h : k ∈ l.map (·.1)) : ∃ v, l.lookup k = some v := by
+  induction l with
+  | nil => simp at h
+  | cons a as ih =>
+    obtain ⟨a1, a2⟩ := a
+    simp only [List.lookup]
+    by_cases e : k = a1
+    · subst e; exact ⟨a2, by simp⟩
+    · have hb : (k == a1) = false := by simpa using e
+      simp only [hb]
+      simp only [List.map_cons, List.mem_cons] at h
+      rcases h with h | h
+      · exact absurd h e
+      · exact ih h
+
+theorem foldLoop_ok (ps : List Para) (h : ∀ p ∈ ps, FoldInv p) (b : Bool) : ∃ r, foldLoop ps b = .ok r := by
+  induction ps generalizing b with
+  | nil => exact ⟨_, rfl⟩
+  | cons p1 rest ih =>
+    cases rest with
+    | nil => exact ⟨_, rfl⟩
+    | cons p2 rest =>
+      have ih' := fun b => ih (fun p hp => h p (List.mem_cons_of_mem _ hp)) b
+      rw [foldLoop_unfold]
+      by_cases hb : b = true
+      · simp only [hb, if_true]; exact ih' false
+      · simp only [hb, Bool.false_eq_true, if_false]
+        by_cases hc : foldCond p1 p2 = true
+        · simp only [hc, if_true]
+          unfold foldCond at hc
+          simp only [Bool.and_eq_true, decide_eq_true_eq] at hc
+          obtain ⟨⟨⟨⟨_, _⟩, hk2⟩, hkeys⟩, htruthy⟩ := hc
+          have hfi := h p2 (by simp)
+          cases hd : toDict p2 with
+          | nil => rw [hd] at hkeys; simp at hkeys
+          | cons kv tl =>
+            rw [hd] at hkeys htruthy
+            cases tl with
+            | cons _ _ => simp at hkeys
+            | nil =>
+              obtain ⟨k, v⟩ := kv
+              simp only [List.map_cons, List.map_nil, List.cons.injEq, and_true] at hkeys
+              subst hkeys
+              cases v with
+              | emptyList => simp [dvTruthy] at htruthy
+              | s text =>
+                have hlk : (toDict p2).lookup unknownName = some (XV.s text) := by rw [hd]; simp [List.lookup]
+                rw [toDict_eq, hfi.1 hk2] at hlk
+                rcases foldl_dstep_lookup_s _ _ _ _ hlk with ⟨v, hv⟩ | hbad
+                · obtain ⟨rng, hrng⟩ := lookup_some_of_mem _ _ (hfi.2 _ _ hv)
+                  rw [hrng]
+                  simp only
+                  obtain ⟨r, hr⟩ := ih' true
+                  rw [hr]
+                  exact ⟨_, rfl⟩
+                · simp at hbad
+        · simp only [hc, Bool.false_eq_true, if_false]
+          obtain ⟨r, hr⟩ := ih' false
+          rw [hr]
+          exact ⟨_, rfl⟩
+
+theorem foldLicense_ok (ps : List Para) (h : ∀ p ∈ ps, FoldInv p) : ∃ out, foldLicense ps = .ok out := by
+  unfold foldLicense
+  split
+  · exact ⟨_, rfl⟩
+  · obtain ⟨r, hr⟩ := foldLoop_ok ps h false
+    rw [hr]
+    simp only
+    split
+    · exact ⟨_, rfl⟩
+    · split <;> exact ⟨_, rfl⟩
+
+/-- **building a copyright object from any text returns normally** -/
+theorem fromText_ok (t : Str) : ∃ ps, fromText t = .ok ps := by
+  unfold fromText fromFieldsGroups
+  obtain ⟨ps, hps, hg⟩ := mapExcept_good (parse t)
+  rw [hps]
+  obtain ⟨out, ho, hf⟩ := mergeUnknown_ok ps hg
+  simp only [ho]
+  exact foldLicense_ok out hf
+
+
+/-! ### rendering raises nothing (the model leaves non-ASCII field names outside) -/
+
+theorem baseDumps_cases (p : Para) : (∃ s, baseDumps p = .ok s) ∨ baseDumps p = .error .outOfModel := by
+  unfold baseDumps
+  simp only
+  split
+  · exact Or.inr rfl
+  · exact Or.inl ⟨_, rfl⟩
+
+theorem paraDumps_cases (p : Para) : (∃ s, paraDumps p = .ok s) ∨ paraDumps p = .error .outOfModel := by
+  unfold paraDumps
+  split
+  · split
+    · exact Or.inl ⟨_, rfl⟩
+    · exact baseDumps_cases p
+  · split
+    · exact Or.inl ⟨_, rfl⟩
+    · exact baseDumps_cases p
+  · exact baseDumps_cases p
+
+theorem mapExcept_cases {α β} (f : α → Except PyExc β) (e0 : PyExc) (l : List α)
+    (h : ∀ a ∈ l, (∃ b, f a = .ok b) ∨ f a = .error e0) :
+    (∃ bs, mapExcept f l = .ok bs) ∨ mapExcept f l = .error e0 := by
+  induction l with
+  | nil => exact Or.inl ⟨[], rfl⟩
+  | cons a as ih =>
+    unfold mapExcept
+    rcases h a (by simp) with ⟨b, hb⟩ | hb
+    · rw [hb]
+      simp only
+      rcases ih (fun x hx => h x (List.mem_cons_of_mem _ hx)) with ⟨bs, hbs⟩ | hbs
+      · rw [hbs]; exact Or.inl ⟨_, rfl⟩
+      · rw [hbs]; exact Or.inr rfl
+    · rw [hb]; exact Or.inr rfl
+
+theorem docDumps_cases (ps : List Para) : (∃ s, docDumps ps = .ok s) ∨ docDumps ps = .error .outOfModel := by
+  unfold docDumps
+  rcases mapExcept_cases paraDumps .outOfModel ps (fun p _ => paraDumps_cases p) with ⟨ds, h⟩ | h
+  · rw [h]; exact Or.inl ⟨_, rfl⟩
+  · rw [h]; exact Or.inr rfl
+
+/-- **C07** — for every Unicode text the model of every lenient entry point returns normally:
+both parsers, building the copyright object, its dictionary forms, its rendering (which the model
+leaves only for non-ASCII field names, `OutOfModel`), both validity checks; and evaluating twice gives
+equal results (the model is a function). -/
+theorem sound (t : Str) : holdsOn t (model t) = true := by
+  obtain ⟨ps, hps⟩ := fromText_ok t
+  unfold holdsOn model
+  simp only [hps, Props.isOk, Bool.true_and, Bool.and_true]
+  rcases docDumps_cases ps with ⟨s, hs⟩ | hs
+  · rw [hs]
+  · rw [hs]; rfl
+
 
 end Props.C07
